@@ -122,16 +122,17 @@ theorem enum_unsigned_could (k uw : Nat) (hk : 1 ≤ k) (hkuw : k ≤ uw) (buf :
     (hkB : k ≤ buf.W) (t : IntT) (x : Int) (h0 : 0 ≤ x) (hx : x < ((2 ^ uw : Nat) : Int)) :
     (View.mk (.enum uw false) k buf).couldWrite t x = true ↔ x < ((2 ^ k : Nat) : Int) := by
   obtain ⟨n, rfl⟩ : ∃ n : Nat, x = n := ⟨x.toNat, by omega⟩
+  have hn : n < 2 ^ uw := by omega
   simp only [View.couldWrite, Bool.and_eq_true, Bool.or_eq_true, decide_eq_true_eq,
-    Bool.false_eq_true, if_false, ofInt_natCast_mod]
+    Bool.false_eq_true, if_false, ofInt_natCast_mod, Nat.mod_eq_of_lt hn]
   generalize buf.W = BW at *
   have hA := le_arithW BW
   have hk2 : 2 ^ k ≤ 2 ^ uw := pow_le_pow hkuw
   have hkB2 : 2 ^ k ≤ 2 ^ BW := pow_le_pow hkB
   have hmod := Nat.mod_lt n (two_pow_pos' BW)
   have hmodle := Nat.mod_le n (2 ^ BW)
-  have hn : n < 2 ^ uw := by omega
-  rw [wrap_of_lt (show n % 2 ^ BW < 2 ^ uw by omega)]
+  have hwr : wrap BW n = n % 2 ^ BW := rfl
+  rw [hwr, wrap_of_lt (show n % 2 ^ BW < 2 ^ uw by omega)]
   constructor
   · rintro ⟨hrt, hsz⟩
     have hrt' : n = n % 2 ^ BW := by omega
@@ -152,10 +153,113 @@ theorem enum_unsigned_could (k uw : Nat) (hk : 1 ≤ k) (hkuw : k ≤ uw) (buf :
     · exact Or.inl hkB'
     · right; rw [double_shl_eq hk (by omega), hm]; exact hxk
 
+/-- `ofInt` of a value of the signed `uw`-bit type, split by sign. -/
+theorem ofInt_signed_cases {uw : Nat} (huw : 1 ≤ uw) {x : Int}
+    (hlo : -((2 ^ (uw - 1) : Nat) : Int) ≤ x) (hhi : x < ((2 ^ (uw - 1) : Nat) : Int)) :
+    (0 ≤ x ∧ ofInt uw x = x.toNat ∧ x.toNat < 2 ^ (uw - 1)) ∨
+    (x < 0 ∧ ((ofInt uw x : Nat) : Int) = x + ((2 ^ uw : Nat) : Int) ∧ 2 ^ (uw - 1) ≤ ofInt uw x) := by
+  have hd := pow_pred_double (W := uw) (by omega)
+  by_cases h0 : 0 ≤ x
+  · left
+    refine ⟨h0, ofInt_of_nonneg h0 (by omega), by omega⟩
+  · right
+    have hx : x < 0 := by omega
+    have hmod : x % ((2 ^ uw : Nat) : Int) = x + ((2 ^ uw : Nat) : Int) := by
+      rw [← Int.add_emod_right]
+      exact Int.emod_eq_of_lt (by omega) (by omega)
+    have hofi : ((ofInt uw x : Nat) : Int) = x + ((2 ^ uw : Nat) : Int) := by
+      unfold ofInt; rw [hmod]; exact Int.toNat_of_nonneg (by omega)
+    exact ⟨hx, hofi, by omega⟩
+
+/-- **`EnumView::CouldWriteValue` of a signed enum as implemented** (after `fix: … negative
+value of a signed enum … full-width field inside a wider bits`): a field as wide as the
+underlying type accepts every value of the type, whatever the width of the buffer's value
+type; a narrower field accepts exactly `0 ≤ x < 2^k` (the unsigned image of a negative value
+is `≥ 2^(uw-1) ≥ 2^k`). -/
+theorem enum_signed_could (k uw : Nat) (hk : 1 ≤ k) (hkuw : k ≤ uw) (buf : Buf)
+    (hkB : k ≤ buf.W) (t : IntT) (x : Int) (hlo : -((2 ^ (uw - 1) : Nat) : Int) ≤ x)
+    (hhi : x < ((2 ^ (uw - 1) : Nat) : Int)) :
+    (View.mk (.enum uw true) k buf).couldWrite t x = true ↔
+      (k = uw ∨ (0 ≤ x ∧ x < ((2 ^ k : Nat) : Int))) := by
+  simp only [View.couldWrite, Bool.and_eq_true, Bool.or_eq_true, decide_eq_true_eq, if_true]
+  generalize buf.W = BW at *
+  have hA := le_arithW BW
+  have hd := pow_pred_double (W := uw) (by omega)
+  have hk2 : 2 ^ k ≤ 2 ^ uw := pow_le_pow hkuw
+  have hkB2 : 2 ^ k ≤ 2 ^ BW := pow_le_pow hkB
+  have hu := ofInt_lt uw x
+  have hwr : wrap BW (ofInt uw x) = ofInt uw x % 2 ^ BW := rfl
+  have hmod := Nat.mod_lt (ofInt uw x) (two_pow_pos' BW)
+  have hmodle := Nat.mod_le (ofInt uw x) (2 ^ BW)
+  -- the size clause, in arithmetic form
+  have hsz : (k = BW ∨ ofInt uw x % 2 ^ BW < shl (arithW BW) (shl (arithW BW) 1 (k - 1)) 1) ↔
+      (k = BW ∨ ofInt uw x % 2 ^ BW < 2 ^ k) := by
+    by_cases hkB' : k = BW
+    · simp [hkB']
+    · rw [double_shl_eq hk (by omega)]
+  rw [hwr, hsz]
+  by_cases hfull : uw ≤ BW
+  · -- the bit view's value type holds the whole unsigned image: the round trip is exact
+    have hm : ofInt uw x % 2 ^ BW = ofInt uw x :=
+      Nat.mod_eq_of_lt (by have := pow_le_pow hfull; omega)
+    have hrt : x = toSigned uw (ofInt uw x) := (toSigned_ofInt (by omega) hlo hhi).symm
+    rw [hm]
+    constructor
+    · rintro ⟨_, hs⟩
+      by_cases hku : k = uw
+      · exact Or.inl hku
+      · right
+        have hklt : ofInt uw x < 2 ^ k := by
+          rcases hs with hkB' | hlt
+          · omega
+          · exact hlt
+        have hkp : 2 ^ k ≤ 2 ^ (uw - 1) := pow_le_pow (by omega)
+        rcases ofInt_signed_cases (by omega) hlo hhi with ⟨h0, he, _⟩ | ⟨_, _, hge⟩
+        · exact ⟨h0, by omega⟩
+        · omega
+    · rintro (hku | ⟨h0, hlt⟩)
+      · refine ⟨hrt, ?_⟩
+        by_cases hkB' : k = BW
+        · exact Or.inl hkB'
+        · right; rw [hku]; exact hu
+      · refine ⟨hrt, Or.inr ?_⟩
+        rw [ofInt_of_nonneg h0 (by omega)]; omega
+  · -- the bit view's value type is narrower than the enum: only `0 ≤ x < 2^BW` round-trips
+    have hBlt : BW < uw := by omega
+    have hBp : 2 ^ BW ≤ 2 ^ (uw - 1) := pow_le_pow (by omega)
+    have hkne : k ≠ uw := by omega
+    have hts : toSigned uw (ofInt uw x % 2 ^ BW) = ((ofInt uw x % 2 ^ BW : Nat) : Int) :=
+      toSigned_of_lt (by omega) (by omega)
+    rw [hts]
+    constructor
+    · rintro ⟨hrt, hs⟩
+      right
+      have h0 : 0 ≤ x := by omega
+      have he := ofInt_of_nonneg h0 (show x < ((2 ^ uw : Nat) : Int) by omega)
+      rw [he] at hrt hs
+      have hxm : x.toNat % 2 ^ BW = x.toNat := by omega
+      rw [hxm] at hs
+      refine ⟨h0, ?_⟩
+      rcases hs with hkB' | hlt
+      · subst hkB'; omega
+      · omega
+    · rintro (hku | ⟨h0, hlt⟩)
+      · exact absurd hku hkne
+      · have he := ofInt_of_nonneg h0 (show x < ((2 ^ uw : Nat) : Int) by omega)
+        have hxm : x.toNat % 2 ^ BW = x.toNat := Nat.mod_eq_of_lt (by omega)
+        rw [he, hxm]
+        exact ⟨by omega, Or.inr (by omega)⟩
+
+/-- The raw pattern `EnumView::TryToWrite` hands to `WriteUInt`, for a value of the
+underlying type that the field width can hold as an unsigned image. -/
+theorem enum_encode_eq {BW uw k : Nat} (hkB : k ≤ BW) (x : Int)
+    (hlt : ofInt uw x < 2 ^ k) : wrap BW (ofInt uw x) = ofInt uw x :=
+  wrap_of_lt (by have := pow_le_pow hkB; omega)
+
 /-- What `TryToWrite` stores represents the value: for every accepted value the raw pattern
 fits the field and decodes (per the documentation) to the value. -/
 theorem encode_spec (h : Placed bb o w) (direct : Bool) (ty : Ty) (hty : TypeFits ty w)
-    (hs : ∀ uw, ty = .enum uw true → w = bb.W) (t : IntT) (x : Int) (ha : ArgOk ty w t x)
+    (t : IntT) (x : Int) (ha : ArgOk ty w t x)
     (hc : (fieldView ty direct bb o w).couldWrite t x = true) :
     (fieldView ty direct bb o w).encode x < 2 ^ w ∧
     decodeSpec ty w ((fieldView ty direct bb o w).encode x) = some x := by
@@ -192,20 +296,23 @@ theorem encode_spec (h : Placed bb o w) (direct : Bool) (ty : Ty) (hty : TypeFit
     rw [ofInt_of_nonneg h0 hlt]
     exact ⟨by omega, by congr 1; omega⟩
   | enum uw s =>
+    have hkB := placed_w_le_W h
     cases s with
     | false =>
       have hlt := (enum_unsigned_could w uw h.w_pos hty (fieldBuf direct bb o w)
-        (by rw [fieldBuf_W]; exact placed_w_le_W h) t x ha.1 ha.2).mp hc
+        (by rw [fieldBuf_W]; exact hkB) t x ha.1 ha.2).mp hc
       simp only [View.encode, fieldView, fieldBuf_W, decodeSpec]
-      have hwW := pow_le_pow (placed_w_le_W h)
+      have hwW := pow_le_pow hkB
+      have hwu := pow_le_pow (show w ≤ uw from hty)
       have h0 : 0 ≤ x := ha.1
-      rw [ofInt_of_nonneg h0 (by omega)]
+      rw [ofInt_of_nonneg h0 ha.2, wrap_of_lt (by omega)]
       exact ⟨by omega, by congr 1; omega⟩
     | true =>
+      -- spec-conformant fragment: the field is as wide as the underlying type
       simp only [TypeFits] at hty; subst hty
-      have hW := hs uw rfl
-      simp only [View.encode, fieldView, fieldBuf_W, decodeSpec, ← hW]
+      simp only [View.encode, fieldView, fieldBuf_W, decodeSpec]
       obtain ⟨he, hlt⟩ := twos_ofInt (by have := h.w_pos; omega) ha.1 ha.2
+      rw [wrap_of_lt (by have := pow_le_pow hkB; omega)]
       exact ⟨hlt, by rw [he]⟩
 
 end Emboss.Scalar
